@@ -99,7 +99,9 @@ def sourceHashes : List (String × String) :=
    ("getMethodByName", "f50f4b6cbd60d2d3"),
    ("lookupMethodValue", "375ef5678906848e"),
    ("stripReceiverFromArgs", "bb4ae1a98125a1a0"),
-   ("genFunctionWrapper", "033ce6ccd17871ac"),
+   ("genFunctionWrapper", "4feabaa50796f8ae"),
+   ("genFunctionWrapperFor", "7ae088f127151d29"),
+   ("genHostFunctionWrapper", "fbf22c3d3d999031"),
    ("genInterfaceWrapper", "39c789f3e29ad824"),
    ("genInterfaceWrapperValue", "d62e22eba6a3bbbe"),
    ("copyDeferArg", "d8586ba1ea695e54"),
